@@ -2,18 +2,25 @@
 
 Theorems: coq/props/C17.v (model coq/model/PatModel.v: decision trees of the default
 engine's generated `pattern_to_dt` and of v1's `load_to_pattern`, with fromisoformat /
-strptime as parameters).  Harness: patterns from a grammar of strptime directives that
-determine the target's fields (incl. %z, %I/%p, %y, %j, %b/%B, literal text, '-', '+',
-'Z', '%%'), values over 1900-2100 incl. subclasses, DatePattern / TimePattern /
-DateTimePattern / Pattern (default engine) and the v1 naive / Aware / UTC variants with one
-or several patterns, alone and inside List / Dict annotations.
-Direct predicates on the implementation, for every generated case:
+strptime as parameters, and `load_pos`: the annotated type as a position tree).
+Harness: classes of 8 patterned fields written as source text.
+  * patterns: grammar of strptime directives that determine the target's fields (%Y %y %m %b %B
+    %d %j %H %I %p %M %S %f %z, literal text, '-', '+', 'Z', '%%', overlapping pattern pairs);
+  * placement styles: Annotated on the whole container, one module-level pattern object shared by
+    several fields of different target types, subscript style at the leaves
+    (List[DatePattern[...]]), Annotated at the leaves (v1), pattern inside a nested dataclass;
+  * positions: leaf, List, Dict (str keys / date-time keys), fixed and variadic tuples, Optional
+    (also inside containers), Union with several non-None members (v1), NamedTuple fields,
+    TypedDict values (total and not), nested dataclasses, NamedTuple / TypedDict classes shared
+    by several fields, depth up to 3-4, mixed target kinds and subclasses below one pattern;
+  * engines: default and v1 (naive / Aware / UTC, 1-3 patterns).
+Direct predicates on the implementation, for every generated input:
   P1 load(v.strftime(p)) == truncate_p(v) (+tz), as the annotated class (ISO reading allowed
-     only if the string is also valid ISO),     P2 load(dump(load(s))) == load(s),
+     only if the string is also valid ISO),     P2 load(dump(load(x))) == load(x),
   P3 load(v.isoformat()) == v,                  P4 junk -> ParseError naming the patterns,
-  P6 several patterns -> first matching in listed order,   P7 element-wise in containers.
-Correspondence: model vs implementation on the decision outcomes, the answers of the real
-strptime / fromisoformat being passed to the model as oracle tables.
+  P6 several patterns -> first matching in listed order,   P7 element-wise at every position.
+Correspondence: the model's `load_pos` over the same tree and input, the answers of the real
+strptime / fromisoformat for the leaf strings being passed as oracle tables.
 """
 import datetime as _dt, json, zoneinfo
 from lib.coqrun import coq_str, coq_list
@@ -28,7 +35,8 @@ META = {
     'design_ref': 'DESIGN.md section 4 C17',
     'theorems': ['C17_pattern', 'C17_pattern_dash_time', 'C17_pattern_v1', 'C17_first_match_v1', 'C17_tz_attached',
                  'C17_iso_precedence', 'C17_iso_precedence_v1', 'C17_iso', 'C17_iso_v1', 'C17_dump_load', 'C17_dump_load_v1',
-                 'C17_reject_v1', 'C17_reject', 'C17_elementwise', 'C17_elementwise_error'],
+                 'C17_reject_v1', 'C17_reject', 'C17_elementwise', 'C17_elementwise_error',
+                 'C17_positions_leaf', 'C17_positions_seq', 'C17_positions_error_origin'],
     'tables': [],
     'level_text': ('Theorems proved in Coq for ALL patterns, strings, values, classes and time zones about an executable model of the '
                    'two generated decision trees (default engine and v1): order of the ISO / strptime attempts, first matching '
@@ -37,14 +45,20 @@ META = {
                    'on every run with the real functions\' answers, and the property is tested directly.'),
     'level_note': ('Trusted: Coq kernel; the hand-written model; the oracle premises (strptime inverts strftime at the pattern\'s '
                    'precision, fromisoformat inverts isoformat) audited by sampling on every run; the harness.'),
-    'rule': ('per engine: classes of 8 patterned fields; per field 1 value formatted with the (each) pattern, its ISO form, the ISO '
-             'form of an unrelated value, 2 junk strings, and for containers a mixed list/dict. Non-trivial = pattern with >= 3 '
-             'directives or a subclass / tz variant / container / several patterns; distinct = distinct (engine, annotation, input).'),
+    'rule': ('per engine: classes of 8 patterned fields (placement styles: Annotated container / shared module-level pattern object / '
+             'subscript leaves / Annotated leaves / nested dataclass; positions: leaf, List, Dict, date-time dict keys, fixed and '
+             'variadic tuples, Optional, multi-member Union, NamedTuple, TypedDict total and partial, nested dataclass, shared '
+             'NamedTuple/TypedDict classes, depth <= 4). Scalar field: one value formatted with each pattern, an ISO string, 2 junk '
+             'strings; container field: 3 inputs whose leaves are pattern-formatted or ISO strings + 2 inputs with one junk leaf. '
+             'Non-trivial = pattern with >= 3 directives or subclass / tz variant / container / several patterns; distinct = '
+             'distinct (engine, annotation, input).'),
     'trusted_base': ['model coq/model/PatModel.v: decision trees only; stdlib parsing/formatting are oracle parameters',
                      'oracle tables computed with the interpreter\'s own datetime.strptime / fromisoformat'],
-    'assumptions': ['inputs are str (numbers / date objects take the timestamp path, outside the property)',
+    'assumptions': ['date/time leaves receive str inputs (numbers / date objects take the timestamp path, outside the property)',
                     'years 1900-2100 (1969-2068 with %y); C locale for %b %B %p',
-                    'each Pattern object annotates one field (a shared instance is mutated with the field type: modelled-not-verified)'],
+                    'default engine: no multi-member Union around a date/time leaf (str input is not matched there even unpatterned) and '
+                    'no leaf-level Annotated inside a container (only container-level Annotated is documented)',
+                    'junk strings are not placed below a multi-member Union (the Union error does not name the patterns)'],
 }
 
 ZONES = ['Europe/London', 'Asia/Tokyo', 'America/New_York', 'UTC', 'Australia/Adelaide']
@@ -1022,7 +1036,7 @@ def gen_groups(ctx):
     groups = []
     for engine in ('v0', 'v1'):
         r = ctx.sub_rng('fields', engine)
-        n = 26 if ctx.tier == 'quick' else 260
+        n = 60 if ctx.tier == 'quick' else 400
         for gi in range(n):
             fields, header = [], []
             nshared = r.choice([0, 0, 2, 3, 4])
@@ -1221,9 +1235,6 @@ def run(ctx):
     impl = ctx.impl('c17', payload(groups))['groups']
     exprs, index = [], []
     nviol = 0
-    fd = ctx.finding(FID61)
-    if fd is not None and isinstance(fd.get('witness'), dict):
-        ctx.known_finding(FID61, still_fails=not replay(ctx, fd['witness'], quiet=True))
     for g, gres in zip(groups, impl):
         region61 = f61_fields(g)
         for fi, (f, fres) in enumerate(zip(g['fields'], gres)):
@@ -1248,13 +1259,10 @@ def run(ctx):
                     continue
                 for m in it['meta'].values():
                     ctx.hist('leaf_input', m['why'])
-                known61 = fi in region61 and ctx.is_open_region(FID61)
+                known61 = False
                 bad = check_input(ctx, f, it, res)
                 if fi in region61:
                     ctx.hist('f61_shape_covered', 'fails' if bad else 'ok')
-                    if bad and ctx.is_open_region(FID61):
-                        ctx.hist('known_region', FID61)
-                        bad = None
                 if bad and nviol < 8:
                     nviol += 1
                     ctx.violation('%s engine, field %s: %s' % (f['engine'], f['ann'], bad), replay_obj(g, fi, it, bad))
